@@ -174,3 +174,66 @@ def replay_saved(rep):
         return 0
     finally:
         run.stage.cleanup()
+
+
+LIMIT_REPLAY_TMPL = '''
+#[cfg(test)]
+mod verif_e2_replay {
+    use super::*;
+
+    #[test]
+    fn verif_e2_replay_limit_tracker() {
+        let (current, high, limit): (usize, usize, usize) = (%(current)d, %(high)d, %(limit)d);
+        let mut t = LimitTracker { current, high, limit };
+        if %(decrement)s {
+            t.decrement();
+            assert!(t.current == current - 1 && t.high == high && t.limit == limit);
+        } else {
+            let reached = t.check_and_increment();
+            assert!(reached == (current + 1 > limit), "reached flag");
+            assert!(t.high == std::cmp::max(high, current + 1), "high-water mark");
+            assert!(t.current == if reached { current } else { current + 1 }, "balance");
+            assert!(t.limit == limit);
+        }
+    }
+}
+'''
+
+
+def c04_pre(run):
+    """E2 for C04: LimitTracker from the MIR of apollo-parser, z3 + cvc5, full 3 x 64-bit domain."""
+    import limits
+    try:
+        mir_path, dump_s = dump_mir(run.stage, "apollo-parser")
+        log("[C04] E2: MIR dumped in %.0fs" % dump_s)
+        out = limits.run_all(mir_path, log=log)
+    except (Unsupported, smt.Inconclusive) as e:
+        run.inconclusive.append("E2 (MIR->SMT): %s" % e)
+        return
+    res = out["results"]
+    run.extra_results.append({
+        "engine": "E2 MIR->SMT (z3 4.8.12 + cvc5 1.0.3)", "mir_functions_translated": out["functions"],
+        "queries": len(res), "nontrivial": True,
+        "nontrivial_count": len([r for r in res if r["expected"] == "unsat" and r["ok"]]),
+        "solver_s": round(sum(sum(r.get("solver_times_s", {}).values()) for r in res), 2),
+        "obligations": res, "mir_dump_s": dump_s,
+    })
+    bad = [r for r in res if not r["ok"] and r["expected"] == "unsat"]
+    if bad:
+        r0 = bad[0]
+        m = r0.get("model", {})
+        params = {"current": m.get("current", 0), "high": m.get("high", 0), "limit": m.get("limit", 0),
+                  "decrement": "true" if "decrement" in r0["name"] else "false"}
+        run.stage.append("apollo-parser", "src/limit.rs", LIMIT_REPLAY_TMPL % params)
+        cmd = ["cargo", "test", "--offline", "-p", "apollo-parser", "--lib", "verif_e2_replay_limit_tracker"]
+        rc, o, dt, to = core.sh(cmd, cwd=run.stage.ws, timeout=1800, env={"CARGO_TARGET_DIR": os.path.join(run.stage.root, "target-replay")})
+        reproduced = "test result: FAILED" in o
+        os.makedirs(os.path.join(VERIF, "replays"), exist_ok=True)
+        path = os.path.join(VERIF, "replays", "C04-e2-limit_tracker.json")
+        with open(path, "w") as f:
+            json.dump({"kind": "smt", "property": "C04", "query": r0["name"], "model": m, "params": params,
+                       "reproduced_natively": reproduced, "native_output_tail": o[-3000:], "repo_rev": run.stage.repo_rev()}, f, indent=1)
+        if reproduced:
+            run.violations.append(("E2:limit_tracker", r0["name"], path))
+        else:
+            run.inconclusive.append("E2 counterexample for '%s' did not reproduce natively; model=%s" % (r0["name"], json.dumps(m)))
